@@ -1,4 +1,6 @@
 import NirVerif.Lemmas.FileForm
+import NirVerif.Lemmas.EndToEnd
+import NirVerif.Properties.C13
 import NirVerif.Properties.C03
 
 /-! # C01 — the HDF5 round trip returns an equivalent graph
@@ -74,6 +76,151 @@ theorem type_tag (fuel : Nat) (kvs : List (String × Val)) (items : List (String
   split at hc
   · cases hc
   · cases hc; rfl
+
+/-- **End to end, for every leaf primitive with the generic dictionary form** (all but Input,
+Output, Flatten; metadata empty): whenever `nir.write` succeeds, `nir.read` of the file is the
+class constructor applied to the *transported* field values — each field's value as
+`create_dataset` stores it and `item[()]` returns it (`backVal`), under the same name, nothing
+added, nothing dropped, whatever order the file lists them in; the empty metadata is
+re-defaulted.  `kw'` is any keyword dictionary with those entries. -/
+theorem leaf_end_to_end (version kind : String) (fields : List (String × Val)) (it ot : Val)
+    (hw : kind ∈ Generated.whitelist)
+    (hk : kind ≠ "NIRGraph" ∧ kind ≠ "Input" ∧ kind ≠ "Output" ∧ kind ≠ "Flatten")
+    (hnt : lookup "type" fields = none) (hnm : lookup "metadata" fields = none)
+    (hnd : ∀ k v, lookup k fields = some v → ∀ d, v ≠ .dict d)
+    (kw' : List (String × Val)) (hkw : ∀ k, lookup k kw' = (lookup k fields).bind backVal)
+    (f : H5) (hwr : write version (Node.mk kind fields it ot (.dict []) [] []) = .ok f) :
+    read f = construct kind kw' := by
+  -- the dictionary form
+  have hd := C03.toDict_keys_generic kind fields it ot (.dict []) hk
+  simp only [write, hd, bind, Except.bind, pure, Except.pure] at hwr
+  generalize hkvs : fields ++ [("metadata", Val.dict []), ("type", Val.str kind)] = kvs at hwr hd
+  cases hnode : writeRecursiveFuel (Val.size (.dict kvs) + 1) kvs [] with
+  | error e => rw [hnode] at hwr; cases hwr
+  | ok node =>
+    rw [hnode] at hwr
+    simp only [Except.ok.injEq] at hwr
+    subst hwr
+    -- facts about the dictionary
+    have hlk : ∀ k, lookup k kvs = (lookup k fields).or (lookup k [("metadata", Val.dict []), ("type", Val.str kind)]) := by
+      intro k; rw [← hkvs, lookup_append]
+    have hmeta : ∀ kv ∈ kvs, kv.1 = "metadata" → kv.2 = .dict [] := by
+      intro kv hm hkm
+      rw [← hkvs] at hm
+      rcases List.mem_append.mp hm with h1 | h1
+      · exfalso
+        have : (lookup "metadata" fields).isSome = true :=
+          lookup_isSome_of_mem _ _ (by rw [← hkm]; exact List.mem_map_of_mem h1)
+        rw [hnm] at this; cases this
+      · simp only [List.mem_cons, List.mem_nil_iff, or_false] at h1
+        rcases h1 with rfl | rfl
+        · rfl
+        · simp at hkm
+    have hndk : ∀ k v, lookup k kvs = some v → k ≠ "metadata" → ∀ d, v ≠ .dict d := by
+      intro k v hl hkm d hv
+      rw [hlk] at hl
+      cases hf : lookup k fields with
+      | some v' => rw [hf] at hl; simp at hl; subst hl; exact hnd k v' hf d hv
+      | none =>
+        rw [hf] at hl
+        simp only [Option.none_or, lookup] at hl
+        split at hl
+        · rename_i h1
+          have : "metadata" = k := by simpa using h1
+          exact hkm this.symm
+        · split at hl
+          · cases hl; cases hv
+          · cases hl
+    have hflat := flat_roundtrip _ kvs node hnode hmeta hndk
+    have htype : lookup "type" (hdf2dict.hdf2dictItems node) = some (.str kind) :=
+      type_tag _ kvs node kind hnode (by rw [← hkvs]; exact C13.lookup_type_append fields _ kind hnt)
+    have hnodup : ((hdf2dict.hdf2dictItems node).map Prod.fst).Nodup := by
+      rw [hdf2dictItems_keys]; exact write_nodup _ kvs [] node hnode List.nodup_nil
+    -- the reader
+    simp only [Model.read, h5Get, lookup, beq_self_eq_true, if_true, bind, Except.bind, hdf2dict]
+    rw [C18.fromDict_generic _ kind htype hw ⟨hk.2.1, hk.2.2.1, hk.2.2.2, hk.1⟩]
+    -- the constructor sees both dictionaries alike
+    have hD : ∀ k, lookup k (erase "type" (hdf2dict.hdf2dictItems node)) = lookup k kw' := by
+      intro k
+      rw [lookup_erase_nodup _ _ _ hnodup, hkw]
+      by_cases hkt : k = "type"
+      · subst hkt; simp [hnt]
+      · simp only [hkt, if_false]
+        rw [hflat]
+        by_cases hkm : k = "metadata"
+        · subst hkm; simp [hnm]
+        · simp only [hkm, if_false, hlk]
+          cases hf : lookup k fields with
+          | some v' => simp
+          | none =>
+            simp only [Option.none_or, lookup]
+            have e1 : ("metadata" == k) = false := by simpa using (Ne.symm hkm)
+            have e2 : ("type" == k) = false := by simpa using (Ne.symm hkt)
+            simp [e1, e2]
+    unfold construct
+    cases lookup kind Generated.classFields with
+    | none => rfl
+    | some spec =>
+      simp only
+      rw [bindKwargs_congr _ kw' spec (by simp only [hD]) (by intro p _; simp only [bindOne, hD])]
+
+/-- what the transport does to the value kinds that occur as field values -/
+theorem backVal_array (dt : DType) (n : Nat) (sh : List Nat) (d : Bytes)
+    (hdt : dt.kind ≠ .object ∧ dt.kind ≠ .unicodeU) : backVal (.arr dt (n :: sh) d) = some (.arr dt (n :: sh) d) := by
+  obtain ⟨h1, h2⟩ := hdt
+  simp only [backVal, h5Create]
+  simp [h5Load]
+
+theorem backVal_npscalar (dt : DType) (d : Bytes) (hle : dt.big = false) :
+    backVal (.npscalar dt d) = some (.npscalar dt d) := by
+  simp [backVal, h5Create, scalarItem, h5Load, hle]
+
+theorem backVal_int (i : Int) (hfit : fitsInt DType.int64 i = true) :
+    backVal (.int i) = some (.npscalar DType.int64 (encodeInt DType.int64 i)) := by
+  simp only [backVal, h5Create, scalarItem, hfit, if_true, Option.map_some, h5Load]
+  rfl
+
+/-- **Corollary (file-native nodes)**: when every field value is one the file returns unchanged
+(ndarrays of rank ≥ 1, little-endian numpy scalars, strings — i.e. every node that itself came
+out of `nir.read`), the file round trip re-runs the constructor on exactly the node's own
+field values: `read ∘ write` agrees with the dictionary round trip of C13. -/
+theorem leaf_native_roundtrip (version kind : String) (fields : List (String × Val)) (it ot : Val)
+    (hw : kind ∈ Generated.whitelist)
+    (hk : kind ≠ "NIRGraph" ∧ kind ≠ "Input" ∧ kind ≠ "Output" ∧ kind ≠ "Flatten")
+    (hnt : lookup "type" fields = none) (hnm : lookup "metadata" fields = none)
+    (hnative : ∀ k v, lookup k fields = some v → backVal v = some v)
+    (f : H5) (hwr : write version (Node.mk kind fields it ot (.dict []) [] []) = .ok f) :
+    read f = construct kind fields := by
+  apply leaf_end_to_end version kind fields it ot hw hk hnt hnm _ fields _ f hwr
+  · intro k v hl d hv
+    have := hnative k v hl
+    subst hv
+    simp [backVal, h5Create] at this
+  · intro k
+    cases hl : lookup k fields with
+    | none => rfl
+    | some v => simp [hnative k v hl]
+
+/-- Non-vacuity of the end-to-end theorems: an LIF node is written, and reading the file is
+the LIF constructor on its four parameter arrays (which accepts them). -/
+def exLifFields : List (String × Val) :=
+  [("tau", .arr DType.float64 [2] []), ("r", .arr DType.float64 [2] []), ("v_leak", .arr DType.float64 [2] []),
+   ("v_threshold", .arr DType.float64 [2] [])]
+def exLif : Node := Node.mk "LIF" exLifFields (typeDict "input" (Val.ofInts [2])) (typeDict "output" (Val.ofInts [2])) (.dict []) [] []
+
+example : ∃ f, write "0.2.0" exLif = .ok f ∧ read f = construct "LIF" exLifFields ∧
+    (construct "LIF" exLifFields).toBool = true := by
+  have hw : (write "0.2.0" exLif).toBool = true := by decide +kernel
+  cases hf : write "0.2.0" exLif with
+  | error e => rw [hf] at hw; cases hw
+  | ok f =>
+    refine ⟨f, rfl, ?_, by decide +kernel⟩
+    apply leaf_native_roundtrip "0.2.0" "LIF" exLifFields _ _ (by decide) (by decide) rfl rfl _ f hf
+    intro k v hl
+    simp only [exLifFields, lookup] at hl
+    repeat' split at hl
+    all_goals (first | cases hl | skip)
+    all_goals exact backVal_array _ _ _ _ (by decide)
 
 /-- Non-vacuity: edges with a duplicate, a self-loop, a dotted and a non-ASCII endpoint. -/
 example : (h5Create (edgesVal [("a", "b"), ("a", "b"), ("b", "b"), ("sub.x", "é")])).map
